@@ -159,7 +159,7 @@ class Ctx:
         if self.broken_msgs:
             for m in self.broken_msgs:
                 print("ANALYSIS-BROKEN property=%s: %s" % (self.prop, m))
-            return 2
+            return 1 if viol else 2
         print("%s [%s]: %d rule instances over %d rules, %d violated (%d known), units=%s, %.1fs" % (
             self.prop, self.tier, len(self.instances), len(counts), len(fails), len(kf),
             ",".join(self.units), time.time() - self.t0))
